@@ -114,6 +114,48 @@ def run(chk):
         lines.append('src=%s I B?a src=%s I B?a C src=%s I Ba C' % (hexs(first), hexs(second), hexs(good)))
         cases.append(label + '+reused-decode-all')
         lines.append('src=%s A100000 src=%s A100000 src=%s I Ba C' % (hexs(first), hexs(second), hexs(good)))
+    # ---- the invariant the theorems rest on, observed on the real decoder: after EVERY call (successful or not) each FSE
+    # table of the scratch space is unset or consistent (2^accuracy_log entries, every state transition inside the table,
+    # symbols inside the alphabet), the Huffman table is unset or complete.  A table that looks usable but is not is
+    # exactly what findings F12 and F13 were; here it is reported without needing a later block that uses it.
+    vlines, vlabels = [], []
+    for first, second, label in synth.make_broken_table_then_repeat(rng, 60 if thorough else 24):
+        vlines.append('src=%s I V B?b1 V B?b1 V B?b1 V B?b1 V src=%s I V B?a V' % (hexs(first), hexs(second))); vlabels.append(label)
+    for f in base[:(40 if thorough else 16)]:
+        for _ in range(4 if thorough else 2):
+            m, label = mutate.corrupt(rng, f['frame'])
+            vlines.append('src=%s I V B?b1 V B?b1 V B?b1 V B?a V src=%s I V Ba V' % (hexs(m), hexs(good))); vlabels.append('inv-' + label)
+    for m, label in mutate.tiny_huffman_frames(rng, 120 if thorough else 40):
+        vlines.append('src=%s I V B?a V src=%s I V B?a V' % (hexs(m), hexs(m))); vlabels.append('inv-' + label)
+    LIM = [35, 31, 52]
+    def table_state_ok(tok):
+        if tok == 'V:none':
+            return True, ''
+        rows = [[int(x) for x in r.split(',')] for r in tok[2:].split(';')]
+        for k in range(3):
+            al, ln, reach, sym, bits, rle = rows[k]
+            if al != 0 and not (ln == (1 << al) and reach <= (1 << al) and sym <= LIM[k] and bits <= al):
+                return False, 'FSE table %s: accuracy_log %d, %d entries, states reach %d, largest symbol %d, largest bit count %d' % (['literal lengths', 'offsets', 'match lengths'][k], al, ln, reach, sym, bits)
+            if rle != -1 and not (0 <= rle <= LIM[k]):
+                return False, 'RLE symbol %d outside the alphabet of %s' % (rle, ['literal lengths', 'offsets', 'match lengths'][k])
+        mb, ln, lo, hi = rows[3][:4]
+        if mb != 0 and not (ln == (1 << mb) and 1 <= lo and hi <= mb):
+            return False, 'Huffman table: max_num_bits %d, %d entries, code lengths %d..%d' % (mb, ln, lo, hi)
+        return True, ''
+    nv = nvtok = 0
+    for prof in ('release',):
+        rc, vr, err = zh('prog', vlines, prof, timeout=300)
+        for ln, lab, r in zip(vlines, vlabels, vr):
+            nv += 1
+            for tok in r.split():
+                if tok.startswith('V:'):
+                    nvtok += 1
+                    ok, why = table_state_ok(tok)
+                    if not ok and len(chk.violations) < 4:
+                        chk.violation('after a call the decoder holds a table that looks usable but is inconsistent (%s): a later block that uses it would index out of bounds' % why,
+                                      {'component': 'scratch-invariant', 'kind': lab, 'program': ln[:300000], 'how': 'echo "<program>" | _build/cargo/release/zh prog  (V prints the table summary)'})
+                        break
+    chk.cov.setdefault('components', {})['scratch-invariant'] = {'programs': nv, 'observations': nvtok}
     # implementation, both builds, with a deadline per batch; model
     outs = {}
     nhang = 0
